@@ -73,6 +73,7 @@ type ev =
   | Lk of z * z list * z list * int
   | Q of int * z * int * int * bool
   | R of int * z * z list * z list * string
+  | Stall
 
 let expect t s = let g = next t in if g <> s then failwith ("drv_cache: expected " ^ s ^ " got " ^ g)
 
@@ -94,7 +95,8 @@ let run (line : string) : string =
     match next t with
     | "U" -> ignore (next t); ignore (next t); ignore (next t)
     | "Q" -> ignore (next t); ignore (next t); ignore (next t)
-    | "S" -> ignore (next t)
+    | "S" | "W" | "WR" -> ignore (next t)
+    | "M" -> ignore (next t); ignore (next t)
     | "C" -> has_burst := true;
         ignore (next t); ignore (next t); ignore (next t); ignore (next t);
         ignore (next_list t (fun t -> ignore (next t); ignore (next t); ignore (next t)))
@@ -109,6 +111,7 @@ let run (line : string) : string =
     let e = match next t with
       | "U" -> let tm = next_z t in let ci = next_int t in let gi = next_int t in let v = next_int t in U (tm, ci, gi, v)
       | "L" -> let tm = next_z t in let c = unhex (next t) in let g = unhex (next t) in let v = next_int t in Lk (tm, c, g, v)
+      | "W" -> ignore (next t); ignore (next t); Stall
       | "Q" -> let i = next_int t in let tm = next_z t in let ci = next_int t in let gi = next_int t in
                let sa = next_int t = 1 in Q (i, tm, ci, gi, sa)
       | "R" -> let i = next_int t in let tm = next_z t in let c = unhex (next t) in let g = unhex (next t) in
